@@ -186,9 +186,6 @@ func (m *Model) analyseStruct(op *spb.AFTOperation) (Validity, *Entry, string) {
 		e.Msg = t.Ipv4
 		pv := prefixValidity(t.Ipv4.GetPrefix(), false)
 		if pv == Invalid {
-			if isDel {
-				return Unspecified, e, "delete of syntactically invalid prefix"
-			}
 			return Invalid, e, "invalid ipv4 prefix"
 		}
 		if !isDel && t.Ipv4.Ipv4Entry == nil {
@@ -208,9 +205,6 @@ func (m *Model) analyseStruct(op *spb.AFTOperation) (Validity, *Entry, string) {
 		e.Msg = t.Ipv6
 		pv := prefixValidity(t.Ipv6.GetPrefix(), true)
 		if pv == Invalid {
-			if isDel {
-				return Unspecified, e, "delete of syntactically invalid prefix"
-			}
 			return Invalid, e, "invalid ipv6 prefix"
 		}
 		if !isDel && t.Ipv6.Ipv6Entry == nil {
@@ -233,10 +227,6 @@ func (m *Model) analyseStruct(op *spb.AFTOperation) (Validity, *Entry, string) {
 		e.Key = Key{NI: ni, Kind: KMPLS, ID: lu.LabelUint64}
 		e.Msg = t.Mpls
 		if lu.LabelUint64 > maxLabel {
-			if isDel {
-				// names a key that can never be installed: may succeed or fail, must not touch anything.
-				return Unspecified, e, "delete of out-of-range label"
-			}
 			return Invalid, e, "label out of range"
 		}
 		if lu.LabelUint64 < 16 {
